@@ -48,7 +48,15 @@ def select_bases(configs, behs, rng: random.Random, limit: int):
                        if e["e"] in ("invoke", "handler", "emit")))
         shapes.setdefault(shape, b)
     items = sorted(shapes.items(), key=lambda kv: (kv[0][1] != "half", rng.random()))
-    return [b for _, b in items[:limit]]
+    chosen = [b for _, b in items[:limit]]
+    # ... and half-open probes of policies with an abort_if (with and without retry component),
+    # so that a raising abort_if is exercised at every place it is consulted
+    extra: dict = {}
+    for (cid, state, mode, _shape), b in items:
+        cfg = configs[cid - 1]
+        if state == "half" and cfg["rc"]["abort"]:
+            extra.setdefault((bool(cfg["retry"]), mode), b)
+    return chosen + [b for b in extra.values() if b not in chosen]
 
 
 def enumerate_faults(configs, behs, tier: str) -> list[dict]:
